@@ -1,6 +1,452 @@
-//! Further operations (conversions, textual routes, data URLs, percent-decoding,
-//! pointer provenance and allocation counting).
+//! Further operations: conversions (C13), textual routes out (C14), views/lookups (C08),
+//! data URLs (C18), percent-decoded views (C19), pointer provenance and allocation counting (C20).
 
-pub fn dispatch(_t: &[&str]) -> Option<String> {
-    None
+use crate::ops::{b01, trace};
+use crate::{hex, ohex, unhex, ALLOCS, COUNTING};
+use iref::{Iri, IriBuf, IriRef, IriRefBuf, Uri, UriBuf, UriRef, UriRefBuf};
+use std::borrow::Borrow;
+use std::collections::{BTreeSet, HashSet};
+use std::convert::TryFrom;
+use std::panic::{catch_unwind, AssertUnwindSafe};
+use std::sync::atomic::Ordering as AO;
+
+fn okb(text: &[u8], input: &[u8]) -> &'static str {
+    if text == input {
+        "ok"
+    } else {
+        "OKCHANGED"
+    }
+}
+
+fn optb(r: Option<&[u8]>, input: &[u8]) -> &'static str {
+    match r {
+        Some(t) => okb(t, input),
+        None => "none",
+    }
+}
+
+fn resb(r: Result<Vec<u8>, Vec<u8>>, input: &[u8]) -> &'static str {
+    match r {
+        Ok(t) => okb(&t, input),
+        Err(p) => {
+            if p == input {
+                "err"
+            } else {
+                "ERRCHANGED"
+            }
+        }
+    }
+}
+
+/// `convert KIND x..`
+pub fn convert(kind: &str, b: &[u8]) -> Option<String> {
+    let mut out: Vec<(&str, &str)> = Vec::new();
+    match kind {
+        "uri" => {
+            let Ok(v) = Uri::new(b) else { return Some("invalid".into()) };
+            out.push(("as_uri_ref", okb(v.as_uri_ref().as_bytes(), b)));
+            out.push(("as_iri", okb(v.as_iri().as_bytes(), b)));
+            out.push(("as_iri_ref", okb(v.as_iri_ref().as_bytes(), b)));
+            let r: &UriRef = v.as_ref();
+            out.push(("asref_uri_ref", okb(r.as_bytes(), b)));
+            let r: &Iri = v.borrow();
+            out.push(("borrow_iri", okb(r.as_bytes(), b)));
+            let o = v.to_owned();
+            out.push(("into_uri_ref", okb(o.clone().into_uri_ref().as_bytes(), b)));
+            out.push(("into_iri", okb(o.clone().into_iri().as_bytes(), b)));
+            out.push(("into_iri_ref", okb(o.clone().into_iri_ref().as_bytes(), b)));
+            out.push(("from_buf", okb(UriRefBuf::from(o).as_bytes(), b)));
+        }
+        "uriref" => {
+            let Ok(v) = UriRef::new(b) else { return Some("invalid".into()) };
+            out.push(("as_uri", optb(v.as_uri().map(|x| x.as_bytes()), b)));
+            out.push(("as_iri", optb(v.as_iri().map(|x| x.as_bytes()), b)));
+            out.push(("as_iri_ref", okb(v.as_iri_ref().as_bytes(), b)));
+            out.push(("try_from_uri", resb(<&Uri>::try_from(v).map(|x| x.as_bytes().to_vec()).map_err(|e| e.0.as_bytes().to_vec()), b)));
+            out.push(("try_from_iri", resb(<&Iri>::try_from(v).map(|x| x.as_bytes().to_vec()).map_err(|e| e.0.as_bytes().to_vec()), b)));
+            let r: &IriRef = v.into();
+            out.push(("from_iri_ref", okb(r.as_bytes(), b)));
+            let o = v.to_owned();
+            out.push(("try_into_uri", resb(o.clone().try_into_uri().map(|x| x.as_bytes().to_vec()).map_err(|e| e.0.as_bytes().to_vec()), b)));
+            out.push(("try_into_iri", resb(o.clone().try_into_iri().map(|x| x.as_bytes().to_vec()).map_err(|e| e.0.as_bytes().to_vec()), b)));
+            out.push(("into_iri_ref", okb(o.clone().into_iri_ref().as_bytes(), b)));
+            out.push(("tryfrom_buf_uri", resb(UriBuf::try_from(o.clone()).map(|x| x.as_bytes().to_vec()).map_err(|e| e.0.as_bytes().to_vec()), b)));
+            out.push(("tryfrom_buf_iri", resb(IriBuf::try_from(o.clone()).map(|x| x.as_bytes().to_vec()).map_err(|e| e.0.as_bytes().to_vec()), b)));
+            out.push(("from_buf_iri_ref", okb(IriRefBuf::from(o).as_bytes(), b)));
+        }
+        "iri" => {
+            let Ok(s) = std::str::from_utf8(b) else { return Some("invalid".into()) };
+            let Ok(v) = Iri::new(s) else { return Some("invalid".into()) };
+            out.push(("as_iri_ref", okb(v.as_iri_ref().as_bytes(), b)));
+            out.push(("as_uri", optb(v.as_uri().map(|x| x.as_bytes()), b)));
+            out.push(("as_uri_ref", optb(v.as_uri_ref().map(|x| x.as_bytes()), b)));
+            out.push(("try_from_uri", resb(<&Uri>::try_from(v).map(|x| x.as_bytes().to_vec()).map_err(|e| e.0.as_bytes().to_vec()), b)));
+            out.push(("try_from_uri_ref", resb(<&UriRef>::try_from(v).map(|x| x.as_bytes().to_vec()).map_err(|e| e.0.as_bytes().to_vec()), b)));
+            let r: &IriRef = v.into();
+            out.push(("from_iri_ref", okb(r.as_bytes(), b)));
+            let o = v.to_owned();
+            out.push(("into_iri_ref", okb(o.clone().into_iri_ref().as_bytes(), b)));
+            out.push(("try_into_uri", resb(o.clone().try_into_uri().map(|x| x.as_bytes().to_vec()).map_err(|e| e.0.as_bytes().to_vec()), b)));
+            out.push(("try_into_uri_ref", resb(o.clone().try_into_uri_ref().map(|x| x.as_bytes().to_vec()).map_err(|e| e.0.as_bytes().to_vec()), b)));
+            out.push(("from_buf", okb(IriRefBuf::from(o).as_bytes(), b)));
+        }
+        "iriref" => {
+            let Ok(s) = std::str::from_utf8(b) else { return Some("invalid".into()) };
+            let Ok(v) = IriRef::new(s) else { return Some("invalid".into()) };
+            out.push(("as_iri", optb(v.as_iri().map(|x| x.as_bytes()), b)));
+            out.push(("as_uri", optb(v.as_uri().map(|x| x.as_bytes()), b)));
+            out.push(("as_uri_ref", optb(v.as_uri_ref().map(|x| x.as_bytes()), b)));
+            out.push(("try_from_iri", resb(<&Iri>::try_from(v).map(|x| x.as_bytes().to_vec()).map_err(|e| e.0.as_bytes().to_vec()), b)));
+            out.push(("try_from_uri", resb(<&Uri>::try_from(v).map(|x| x.as_bytes().to_vec()).map_err(|e| e.0.as_bytes().to_vec()), b)));
+            out.push(("try_from_uri_ref", resb(<&UriRef>::try_from(v).map(|x| x.as_bytes().to_vec()).map_err(|e| e.0.as_bytes().to_vec()), b)));
+            let o = v.to_owned();
+            out.push(("try_into_iri", resb(o.clone().try_into_iri().map(|x| x.as_bytes().to_vec()).map_err(|e| e.0.as_bytes().to_vec()), b)));
+            out.push(("try_into_uri", resb(o.clone().try_into_uri().map(|x| x.as_bytes().to_vec()).map_err(|e| e.0.as_bytes().to_vec()), b)));
+            out.push(("try_into_uri_ref", resb(o.clone().try_into_uri_ref().map(|x| x.as_bytes().to_vec()).map_err(|e| e.0.as_bytes().to_vec()), b)));
+            out.push(("tryfrom_buf_iri", resb(IriBuf::try_from(o.clone()).map(|x| x.as_bytes().to_vec()).map_err(|e| e.0.as_bytes().to_vec()), b)));
+            out.push(("tryfrom_buf_uri", resb(UriBuf::try_from(o.clone()).map(|x| x.as_bytes().to_vec()).map_err(|e| e.0.as_bytes().to_vec()), b)));
+            out.push(("tryfrom_buf_uri_ref", resb(UriRefBuf::try_from(o).map(|x| x.as_bytes().to_vec()).map_err(|e| e.0.as_bytes().to_vec()), b)));
+        }
+        _ => return None,
+    }
+    Some(out.iter().map(|(n, v)| format!("{}={}", n, v)).collect::<Vec<_>>().join(" "))
+}
+
+// ---------------------------------------------------------------------------
+// textual routes out (C14)
+
+macro_rules! routes_kind {
+    ($B:ty, $O:ty, $new:expr, $b:expr) => {{
+        let b: &[u8] = $b;
+        let Ok(s) = std::str::from_utf8(b) else { return Some("invalid".into()) };
+        let Some(v): Option<&$B> = ($new)(b, s) else { return Some("invalid".into()) };
+        let mut bad: Vec<&str> = Vec::new();
+        if format!("{}", v) != s { bad.push("display") }
+        if format!("{:?}", v) != format!("{:?}", s) { bad.push("debug") }
+        if v.as_str() != s { bad.push("as_str") }
+        if v.as_bytes() != b { bad.push("as_bytes") }
+        let r: &str = v.as_ref();
+        if r != s { bad.push("asref_str") }
+        let r: &[u8] = v.as_ref();
+        if r != b { bad.push("asref_bytes") }
+        let o: $O = v.to_owned();
+        if o.as_bytes() != b { bad.push("to_owned") }
+        if format!("{}", o) != s { bad.push("owned_display") }
+        if format!("{:?}", o) != format!("{:?}", s) { bad.push("owned_debug") }
+        if o.clone().as_bytes() != b { bad.push("clone") }
+        if o.clone().into_string() != s { bad.push("into_string") }
+        if String::from(o.clone()) != s { bad.push("from_string") }
+        if serde_json::to_string(v).ok() != serde_json::to_string(s).ok() { bad.push("serde") }
+        if serde_json::to_string(&o).ok() != serde_json::to_string(s).ok() { bad.push("owned_serde") }
+        if !(*v == s) { bad.push("eq_str") }
+        let other = format!("{}x", s);
+        if *v == other.as_str() { bad.push("eq_str_other") }
+        if bad.is_empty() { Some("1".to_string()) } else { Some(format!("ROUTES {}", bad.join(","))) }
+    }};
+}
+
+pub fn routes(kind: &str, b: &[u8]) -> Option<String> {
+    use iref::{iri, uri};
+    match kind {
+        "uri" => routes_kind!(Uri, UriBuf, |b: &'static [u8], _s| Uri::new(b).ok(), leak(b)),
+        "uriRef" => routes_kind!(UriRef, UriRefBuf, |b: &'static [u8], _s| UriRef::new(b).ok(), leak(b)),
+        "uriAuthority" => routes_kind!(uri::Authority, uri::AuthorityBuf, |b: &'static [u8], _s| uri::Authority::new(b).ok(), leak(b)),
+        "uriUserInfo" => routes_kind!(uri::UserInfo, uri::UserInfoBuf, |b: &'static [u8], _s| uri::UserInfo::new(b).ok(), leak(b)),
+        "iri" => routes_kind!(Iri, IriBuf, |_b, s: &'static str| Iri::new(s).ok(), leak(b)),
+        "iriRef" => routes_kind!(IriRef, IriRefBuf, |_b, s: &'static str| IriRef::new(s).ok(), leak(b)),
+        "iriAuthority" => routes_kind!(iri::Authority, iri::AuthorityBuf, |_b, s: &'static str| iri::Authority::new(s).ok(), leak(b)),
+        "iriUserInfo" => routes_kind!(iri::UserInfo, iri::UserInfoBuf, |_b, s: &'static str| iri::UserInfo::new(s).ok(), leak(b)),
+        _ => None,
+    }
+}
+
+fn leak(b: &[u8]) -> &'static [u8] {
+    Box::leak(b.to_vec().into_boxed_slice())
+}
+
+// ---------------------------------------------------------------------------
+// views of one value as map keys (C08)
+
+pub fn views(fam: &str, b: &[u8]) -> Option<String> {
+    match fam {
+        "u" => {
+            let Ok(v) = Uri::new(b) else { return Some("invalid".into()) };
+            let o = v.to_owned();
+            let ts = [
+                trace(v), trace(&o), trace(v.as_uri_ref()), trace(&v.as_uri_ref().to_owned()),
+                trace(v.as_iri()), trace(&v.as_iri().to_owned()), trace(v.as_iri_ref()),
+                trace(&v.as_iri_ref().to_owned()),
+            ];
+            let same = ts.iter().all(|t| *t == ts[0]);
+            let mut hs: HashSet<UriBuf> = HashSet::new();
+            hs.insert(o.clone());
+            let mut bs: BTreeSet<UriBuf> = BTreeSet::new();
+            bs.insert(o.clone());
+            let l = [
+                hs.contains(v), hs.contains(v.as_uri_ref()), hs.contains(v.as_iri()), hs.contains(v.as_iri_ref()),
+                bs.contains(v), bs.contains(v.as_uri_ref()), bs.contains(v.as_iri()), bs.contains(v.as_iri_ref()),
+            ];
+            let mut hr: HashSet<UriRefBuf> = HashSet::new();
+            hr.insert(o.clone().into_uri_ref());
+            let l2 = hr.contains(v.as_uri_ref());
+            let cross = *v == *v.as_uri_ref() && *v.as_uri_ref() == *v && v.partial_cmp(v.as_uri_ref()) == Some(std::cmp::Ordering::Equal);
+            Some(format!("hash={} lookup={}{} cross={}", if same { "same" } else { "DIFF" },
+                l.iter().map(|x| b01(*x)).collect::<String>(), b01(l2), b01(cross)))
+        }
+        "i" => {
+            let Ok(s) = std::str::from_utf8(b) else { return Some("invalid".into()) };
+            let Ok(v) = Iri::new(s) else { return Some("invalid".into()) };
+            let o = v.to_owned();
+            let ts = [trace(v), trace(&o), trace(v.as_iri_ref()), trace(&v.as_iri_ref().to_owned())];
+            let same = ts.iter().all(|t| *t == ts[0]);
+            let mut hs: HashSet<IriBuf> = HashSet::new();
+            hs.insert(o.clone());
+            let mut bs: BTreeSet<IriBuf> = BTreeSet::new();
+            bs.insert(o.clone());
+            let l = [hs.contains(v), hs.contains(v.as_iri_ref()), bs.contains(v), bs.contains(v.as_iri_ref())];
+            let mut hr: HashSet<IriRefBuf> = HashSet::new();
+            hr.insert(o.clone().into_iri_ref());
+            let l2 = hr.contains(v.as_iri_ref());
+            let cross = *v == *v.as_iri_ref() && *v.as_iri_ref() == *v && v.partial_cmp(v.as_iri_ref()) == Some(std::cmp::Ordering::Equal);
+            Some(format!("hash={} lookup={}{} cross={}", if same { "same" } else { "DIFF" },
+                l.iter().map(|x| b01(*x)).collect::<String>(), b01(l2), b01(cross)))
+        }
+        _ => None,
+    }
+}
+
+// ---------------------------------------------------------------------------
+// data URLs (C18)
+
+pub fn dataurl(b: &[u8]) -> Option<String> {
+    use iref::uri::data::{DataUrl, DataUrlBuf};
+    let br = DataUrl::new(b);
+    let ow = DataUrlBuf::new(b.to_vec());
+    match (br, ow) {
+        (Err(_), Err(e)) => Some(if e.0 == b { "0".into() } else { "ERRCHANGED".into() }),
+        (Ok(_), Err(_)) => Some("ACCEPT-DIFF borrowed-only".into()),
+        (Err(_), Ok(_)) => Some("ACCEPT-DIFF owned-only".into()),
+        (Ok(v), Ok(o)) => {
+            let fmt = |mt: Option<&str>, b64: bool, data: &str| {
+                format!("{} {} {}", ohex(mt.map(|s| s.as_bytes())), b01(b64), hex(data.as_bytes()))
+            };
+            let a1 = fmt(v.media_type(), v.is_base_64_encoded(), v.encoded_data());
+            let p = v.parts();
+            let a2 = fmt(p.media_type, p.base_64, p.data);
+            let a3 = fmt(o.media_type(), o.is_base_64_encoded(), o.encoded_data());
+            let p = o.parts();
+            let a4 = fmt(p.media_type, p.base_64, p.data);
+            let dec = |r: Result<std::borrow::Cow<[u8]>, _>| match r {
+                Ok(d) => hex(&d),
+                Err::<_, base64::DecodeError>(_) => "b64err".to_string(),
+            };
+            let d1 = dec(v.decoded_data());
+            let d2 = dec(o.decoded_data());
+            let text = v.as_str().as_bytes() == b && o.as_str().as_bytes() == b;
+            if a1 == a2 && a1 == a3 && a1 == a4 && d1 == d2 && text {
+                Some(format!("{} {}", a1, d1))
+            } else {
+                Some(format!("VIEWS-DIFF {} | {} | {} | {} | {} | {} | {}", a1, a2, a3, a4, d1, d2, b01(text)))
+            }
+        }
+    }
+}
+
+// ---------------------------------------------------------------------------
+// percent-decoded views (C19)
+
+fn guarded<F: FnOnce() -> String>(f: F) -> String {
+    match catch_unwind(AssertUnwindSafe(f)) {
+        Ok(s) => s,
+        Err(_) => "PANIC".to_string(),
+    }
+}
+
+macro_rules! pct_kind {
+    ($T:ty, $inp:expr, $b:expr) => {{
+        let Ok(v) = <$T>::new($inp) else { return Some("invalid".into()) };
+        let p = v.as_pct_str();
+        let bytes = guarded(|| hex(&p.bytes().collect::<Vec<u8>>()));
+        let chars = guarded(|| p.chars().map(|c| format!("{:x}", c as u32)).collect::<Vec<_>>().join("."));
+        let len = guarded(|| p.len().to_string());
+        let dec = guarded(|| hex(p.decode().as_bytes()));
+        let eqd = guarded(|| {
+            let d = p.decode();
+            b01(*p == *d.as_str()).to_string()
+        });
+        let text = p.as_bytes() == $b;
+        Some(format!("bytes={} chars=[{}] len={} decode={} eqdecoded={} text={}", bytes, chars, len, dec, eqd, b01(text)))
+    }};
+}
+
+pub fn pct(fam: &str, kind: &str, b: &[u8]) -> Option<String> {
+    use iref::{iri, uri};
+    match fam {
+        "u" => match kind {
+            "segment" => pct_kind!(uri::Segment, b, b),
+            "userinfo" => pct_kind!(uri::UserInfo, b, b),
+            "host" => pct_kind!(uri::Host, b, b),
+            "query" => pct_kind!(uri::Query, b, b),
+            "fragment" => pct_kind!(uri::Fragment, b, b),
+            _ => None,
+        },
+        "i" => {
+            let Ok(s) = std::str::from_utf8(b) else { return Some("invalid".into()) };
+            match kind {
+                "segment" => pct_kind!(iri::Segment, s, b),
+                "userinfo" => pct_kind!(iri::UserInfo, s, b),
+                "host" => pct_kind!(iri::Host, s, b),
+                "query" => pct_kind!(iri::Query, s, b),
+                "fragment" => pct_kind!(iri::Fragment, s, b),
+                _ => None,
+            }
+        }
+        _ => None,
+    }
+}
+
+// ---------------------------------------------------------------------------
+// pointer provenance and allocation counting (C20)
+
+fn loc(base: &[u8], s: &[u8]) -> String {
+    let b0 = base.as_ptr() as usize;
+    let p = s.as_ptr() as usize;
+    if p >= b0 && p + s.len() <= b0 + base.len() {
+        format!("{}+{}", p - b0, s.len())
+    } else {
+        format!("const:{}", hex(s))
+    }
+}
+
+fn oloc(base: &[u8], s: Option<&[u8]>) -> String {
+    match s {
+        Some(s) => loc(base, s),
+        None => "-".into(),
+    }
+}
+
+macro_rules! ptr_fam {
+    ($fname:ident, $Ri:ident, $Ref:ident, $md:ident, $conv:expr) => {
+        fn $fname(full: bool, b: &[u8]) -> Option<String> {
+            use iref::$md::{Authority, Path};
+            let inp = ($conv)(b)?;
+            // everything below runs with the allocation counter on
+            ALLOCS.store(0, AO::Relaxed);
+            COUNTING.store(true, AO::Relaxed);
+            let parsed: Option<(Option<&[u8]>, Option<&Authority>, &Path, Option<&[u8]>, Option<&[u8]>, &[u8], &[u8])> = if full {
+                match $Ri::new(inp) {
+                    Ok(v) => {
+                        let p = v.parts();
+                        Some((Some(p.scheme.as_bytes()), p.authority, p.path, p.query.map(|x| x.as_bytes()),
+                              p.fragment.map(|x| x.as_bytes()), v.as_bytes(), v.base().as_bytes()))
+                    }
+                    Err(_) => None,
+                }
+            } else {
+                match $Ref::new(inp) {
+                    Ok(v) => {
+                        let p = v.parts();
+                        Some((p.scheme.map(|x| x.as_bytes()), p.authority, p.path, p.query.map(|x| x.as_bytes()),
+                              p.fragment.map(|x| x.as_bytes()), v.as_bytes(), v.base().as_bytes()))
+                    }
+                    Err(_) => None,
+                }
+            };
+            let Some((s, a, p, q, f, whole, base)) = parsed else {
+                COUNTING.store(false, AO::Relaxed);
+                return Some("invalid".into());
+            };
+            let ap = a.map(|a| a.parts());
+            let ui = ap.as_ref().and_then(|x| x.user_info.map(|u| AsRef::<[u8]>::as_ref(u)));
+            let host = ap.as_ref().map(|x| AsRef::<[u8]>::as_ref(x.host));
+            let port = ap.as_ref().and_then(|x| x.port.map(|u| u.as_bytes()));
+            let first = p.first().map(|x| AsRef::<[u8]>::as_ref(x));
+            let last = p.last().map(|x| AsRef::<[u8]>::as_ref(x));
+            let fname = p.file_name().map(|x| AsRef::<[u8]>::as_ref(x));
+            let dir = p.directory().as_bytes();
+            let par = p.parent().map(|x| x.as_bytes());
+            let poe = p.parent_or_empty().as_bytes();
+            let mut nseg = 0usize;
+            let mut seg_inside = true;
+            let b0 = b.as_ptr() as usize;
+            for sg in p.segments() {
+                nseg += 1;
+                let sb: &[u8] = sg.as_ref();
+                let pp = sb.as_ptr() as usize;
+                if !(pp >= b0 && pp + sb.len() <= b0 + b.len()) {
+                    seg_inside = false;
+                }
+            }
+            for sg in p.segments().rev() {
+                let sb: &[u8] = sg.as_ref();
+                let pp = sb.as_ptr() as usize;
+                if !(pp >= b0 && pp + sb.len() <= b0 + b.len()) {
+                    seg_inside = false;
+                }
+            }
+            COUNTING.store(false, AO::Relaxed);
+            let allocs = ALLOCS.load(AO::Relaxed);
+            Some(format!(
+                "whole={} scheme={} authority={} path={} query={} fragment={} userinfo={} host={} port={} first={} last={} fn={} dir={} par={} poe={} base={} nseg={} segs_inside={} allocs={}",
+                loc(b, whole), oloc(b, s), oloc(b, a.map(|x| x.as_bytes())), loc(b, p.as_bytes()), oloc(b, q), oloc(b, f),
+                oloc(b, ui), oloc(b, host), oloc(b, port), oloc(b, first), oloc(b, last), oloc(b, fname),
+                loc(b, dir), oloc(b, par), loc(b, poe), loc(b, base), nseg, b01(seg_inside), allocs
+            ))
+        }
+    };
+}
+
+fn conv_u(b: &[u8]) -> Option<&[u8]> {
+    Some(b)
+}
+fn conv_i(b: &[u8]) -> Option<&str> {
+    std::str::from_utf8(b).ok()
+}
+
+ptr_fam!(ptr_u, Uri, UriRef, uri, conv_u);
+ptr_fam!(ptr_i, Iri, IriRef, iri, conv_i);
+
+pub fn dispatch(t: &[&str]) -> Option<String> {
+    match *t.first()? {
+        "convert" => convert(t.get(1)?, &unhex(t.get(2)?)?),
+        "routes" => routes(t.get(1)?, &unhex(t.get(2)?)?),
+        "views" => views(t.get(1)?, &unhex(t.get(2)?)?),
+        "dataurl" => dataurl(&unhex(t.get(1)?)?),
+        "pct" => pct(t.get(1)?, t.get(2)?, &unhex(t.get(3)?)?),
+        "ptrbig" => {
+            // inputs far larger than any inline buffer: only the summary is printed (the Lean
+            // model is list-based and is not asked to re-derive megabyte-sized offsets)
+            let full = match *t.get(2)? {
+                "full" => true,
+                "ref" => false,
+                _ => return None,
+            };
+            let b = unhex(t.get(3)?)?;
+            let r = match *t.get(1)? {
+                "u" => ptr_u(full, &b),
+                "i" => ptr_i(full, &b),
+                _ => return None,
+            }?;
+            let keep: Vec<&str> = r
+                .split(' ')
+                .filter(|kv| kv.starts_with("whole=") || kv.starts_with("segs_inside=") || kv.starts_with("allocs="))
+                .collect();
+            Some(format!("len={} {}", b.len(), keep.join(" ")))
+        }
+        "ptr" => {
+            let full = match *t.get(2)? {
+                "full" => true,
+                "ref" => false,
+                _ => return None,
+            };
+            let b = unhex(t.get(3)?)?;
+            let r = match *t.get(1)? {
+                "u" => ptr_u(full, &b),
+                "i" => ptr_i(full, &b),
+                _ => return None,
+            };
+            Some(r.unwrap_or_else(|| "invalid".into()))
+        }
+        _ => None,
+    }
 }
